@@ -93,6 +93,7 @@ type Rec struct {
 	lastRap  *Failure
 	nsamples int
 	phase    string
+	fuzz     bool // coverage-guided mode: no per-case bookkeeping that grows without bound
 }
 
 type knownFile struct {
@@ -374,7 +375,9 @@ func runCase[C any](r *Rec, rt *rapid.T, s *Spec[C], c C) (failed bool, msg stri
 		for _, l := range h.labels {
 			r.s.Labels[l]++
 		}
-		if h.nt {
+		if h.nt && r.fuzz {
+			r.s.NonTrivial++
+		} else if h.nt {
 			hv := hashOf(cj)
 			if _, ok := r.hashes[hv]; !ok {
 				r.hashes[hv] = struct{}{}
@@ -446,6 +449,53 @@ func loadCases[C any](prop string) []C {
 }
 
 // Run executes the spec: replay mode, or core cases followed by the rapid campaign.
+// Fuzz drives the same Check with Go's coverage-guided fuzzer (thorough tier only; a campaign
+// cannot be pinned to a seed, the saved failing input is the reproducible unit). decode maps
+// raw bytes to a case; a failing case is written as a replay file into $VERIF_FUZZ_OUT before
+// the fuzz worker reports it, so it replays through `./check <ID> --replay` like any other.
+func Fuzz[C any](f *testing.F, s Spec[C], seeds [][]byte, decode func([]byte) (C, bool)) {
+	r := newRec(s.Prop, s.Timeout)
+	r.fuzz = true
+	r.phase = "fuzz"
+	if r.journal != nil && *flagOut != "" {
+		// one journal per fuzz worker process
+		r.journal.Close()
+		os.Remove(r.journal.Name())
+		if jf, err := os.Create(filepath.Join(*flagOut, fmt.Sprintf("fuzz-%d.current", os.Getpid()))); err == nil {
+			r.journal = jf
+		} else {
+			r.journal = nil
+		}
+	}
+	for _, sd := range seeds {
+		f.Add(sd)
+	}
+	out := os.Getenv("VERIF_FUZZ_OUT")
+	f.Fuzz(func(t *testing.T, data []byte) {
+		c, ok := decode(data)
+		if !ok {
+			return
+		}
+		failed, msg := runCase(r, nil, &s, c)
+		if !failed {
+			return
+		}
+		r.mu.Lock()
+		var fl Failure
+		if n := len(r.s.Failures); n > 0 {
+			fl = r.s.Failures[n-1]
+			r.s.Failures = r.s.Failures[:0]
+		}
+		r.mu.Unlock()
+		if out != "" {
+			os.MkdirAll(out, 0o755)
+			b, _ := json.Marshal(map[string]any{"property": s.Prop, "sig": fl.Sig, "msg": fl.Msg, "phase": "fuzz", "case": fl.Case})
+			os.WriteFile(filepath.Join(out, fmt.Sprintf("%s-fuzz-%016x.json", s.Prop, hashOf(fl.Case))), b, 0o644)
+		}
+		t.Fatalf("%s", firstLine(msg))
+	})
+}
+
 func Run[C any](t *testing.T, s Spec[C]) {
 	r := newRec(s.Prop, s.Timeout)
 	defer r.flush()
